@@ -283,23 +283,21 @@ theorem plan_unq (se : SubstEnv) (f : Nat) (prog n : Str)
     simp only [Outcome.map, Outcome.bind]
     have hpe := word_no (c :: cs) hw '=' (by decide)
     have hpa : ArgTok ([], c :: cs) := by
-      refine Or.inr ⟨?_, ?_, ?_, ?_, ?_⟩
+      refine Or.inr ⟨?_, ?_, ?_, ?_⟩
       · intro e; exact word_no (c :: cs) hw '|' (by decide) '|' (by have e' : c :: cs = _ := e; rw [e']; simp) rfl
-      · intro e; exact word_no (c :: cs) hw '<' (by decide) '<' (by have e' : c :: cs = _ := e; rw [e']; simp) rfl
-      · intro e; exact word_no (c :: cs) hw '<' (by decide) '<' (by have e' : c :: cs = _ := e; rw [e']; simp) rfl
+      · intro e
+        have e' : (c :: cs).head? = some '<' := e
+        exact word_no (c :: cs) hw '<' (by decide) '<' (List.mem_of_mem_head? e') rfl
       · intro e; exact word_no (c :: cs) hw '&' (by decide) '&' (by have e' : c :: cs = _ := e; rw [e']; simp) rfl
       · exact word_no (c :: cs) hw '>' (by decide)
     have hqa : ∀ t ∈ [(([] : Str), ys ++ [d])], ArgTok t := by
       intro t ht
       simp at ht
       subst ht
-      refine Or.inr ⟨hnp, ?_, ?_, hamp, fun x hx => (hall x hx).2.2.2.2.2⟩
+      refine Or.inr ⟨hnp, ?_, hamp, fun x hx => (hall x hx).2.2.2.2.2⟩
       · intro e
-        have e' : ys ++ [d] = ['<'] := e
-        exact (hall '<' (by rw [e']; simp)).2.2.2.2.1 rfl
-      · intro e
-        have e' : ys ++ [d] = ['<', '<', '<'] := e
-        exact (hall '<' (by rw [e']; simp)).2.2.2.2.1 rfl
+        have e' : (ys ++ [d]).head? = some '<' := e
+        exact (hall '<' (List.mem_of_mem_head? e')).2.2.2.2.1 rfl
     have hlast : (([], c :: cs) :: [(([] : Str), ys ++ [d])]).length > 1 →
         (([], c :: cs) :: [(([] : Str), ys ++ [d])]).getLast? ≠ some ([], ['&']) := by
       intro _ e
